@@ -251,6 +251,9 @@ def ref_parse(stream):
         for d in range(3):
             if not api.decide(And(line[d] >= 48, line[d] <= 57)):
                 return ('bad',)
+        # first digit 1..5 (RFC 5321 4.2.1; what Reply.code accepts)
+        if not api.decide(And(line[0] >= 49, line[0] <= 53)):
+            return ('bad',)
         sep = line[3]
         if not api.decide(Or(sep == 32, sep == 9, sep == 45)):
             return ('bad',)
